@@ -35,7 +35,8 @@ Have(c) == Parse(c.h).v
 CExport ==
     LET c == Cases[l'] IN
     j' = 1 => PrintT(<<"TR", ToJson([i |-> c.i, rv |-> ProbeVerdict(c.ss, Have(c), c.all),
-                                     p |-> [n \in 1..Len(c.ss) |-> Parse(c.ss[n])]])>>)
+                                     p |-> [n \in 1..Len(c.ss) |-> Parse(c.ss[n])],
+                                     pk |-> [n \in 1..Len(c.ss) |-> ParseVerdict(c.ss[n])]])>>)
 
 \* the provider's own version is a well-formed version
 HaveWellFormed == l > 0 => Parse(Cases[l].h).kind = "ok" /\ ~HasHuge(Have(Cases[l]))
